@@ -27,7 +27,7 @@ type SeqOut struct {
 	Key   string // canonical key of the state reached ("" = do not extend: terminal)
 	Obs   string
 	Viols []Violation
-	Evals int // oracle evaluations (read-backs) performed
+	Evals int  // oracle evaluations (read-backs) performed
 	Cut   bool // the budget ran out inside this history's oracle loop
 	// Known: deviations that are reported (and matched against known_findings.json) but do not
 	// stop the search from extending this state.
